@@ -529,4 +529,475 @@ theorem uwJoin_eval (o : Oracles) (c : MCtx) (d : LokiDb) (q : LogQuery) (env : 
     simp only [List.mem_cons, List.not_mem_nil, or_false] at hp
     rcases hp with rfl | rfl | rfl | rfl | rfl <;> simp [Std5]
 
+/-! ### the range phase of an unwrapped range aggregation -/
+def mainSorted (c : Ctx) (q : LogQuery) : Sel :=
+  .mk (fpWiths c q) false samplesCols (some (.col (.raw c.samplesTable) "samples")) []
+    (some (windowCond c)) (some (and_ (fpIn :: (lineFilters q).map lineClause))) [] none
+    [.orderBy (.raw "timestamp_ns") (dirOf c)] none
+
+theorem splSel_unwrap (c : MCtx) (q : MetricQuery) (fn : UnwrapFn) (label : String) (hk : q.rangeAgg.kind = .unwrap fn label) :
+    splSel c q = uwJoinBody c.toCtx label (fpWiths c.toCtx q.rangeAgg.sel ++
+      [(.named "main", mainSorted c.toCtx q.rangeAgg.sel),
+       (.named "_time_series", (timeSeriesSel c.toCtx).setWiths (fpWiths c.toCtx q.rangeAgg.sel))]) := by
+  unfold splSel
+  simp only [hk]
+  have hm : (samplesMain c.toCtx q.rangeAgg.sel).setOrderBy [.orderBy (.raw "timestamp_ns") (dirOf c.toCtx)] =
+      mainSorted c.toCtx q.rangeAgg.sel := by
+    rw [samplesMain_eq]; rfl
+  rw [hm]
+  unfold labelsJoin
+  rw [tsWith_eq, with_two _ _ _ _ _ (by exact (fpWiths_als c.toCtx q.rangeAgg.sel).1)
+    (by exact named_notin_fp _ _ _ (by decide)) (by decide)
+    (by intro x hx; rw [withs_setWiths] at hx; exact hx)]
+  unfold unwrapSel uwJoinBody uwJoinCols uwSrc joinedSel joinType
+  by_cases hl : label = "_entry" <;>
+    simp [hl, Sel.setWiths, Sel.setCols, Sel.cols, patchCol, getCol, simpleCol, mainSorted, Sel.withs]
+
+theorem evalBodyA_orderBy (o : Oracles) (db : Db) (env : Env) (ws : List (Alias × Sel)) (cols : List Expr) (f : Option Expr)
+    (pre wher : Option Expr) (e : Expr) (ob : List Expr) :
+    evalBodyA o db env (.mk ws false cols f [] pre wher [] none (e :: ob) none) =
+      sortBy (rowLe (orderKeys (e :: ob))) (evalBodyA o db env (.mk ws false cols f [] pre wher [] none [] none)) := by
+  simp [evalBodyA]
+
+theorem mainSorted_eval (o : Oracles) (c : MCtx) (hn : c.namesOk) (d : LokiDb) (q : LogQuery) (env : Env) (T : Table)
+    (hT : env.lookup (.named "fp_sel") = some T) (hP : FpTable T (fpSelected o c.toCtx d q)) :
+    evalBodyA o (d.toDbM c) env (mainSorted c.toCtx q) =
+      (sortBy (tsLe c.toCtx) (d.samples.filter (entryMatches o c.toCtx d q))).map (sampleRow "string") := by
+  unfold mainSorted samplesCols
+  rw [evalBodyA_orderBy, samplesMain_eval o c hn d q env T hT hP _ "string" (Or.inl rfl)]
+  simp only [orderKeys]
+  exact sortBy_map (tsLe c.toCtx) _ (sampleRow "string") (rowLe_main c.toCtx) _
+
+/-- the entry points an unwrapped range aggregation groups: the matching entries in timestamp order, each with its
+    stream's labels and its unwrapped value, regrouped when the range aggregation carries a grouping clause -/
+def uwInput (o : Oracles) (c : Ctx) (d : LokiDb) (r : RangeAgg) (label : String) : List Pt :=
+  let pts := (sortBy (tsLe c) (d.samples.filter (entryMatches o c d r.sel))).map (entryPt o c d r.sel label)
+  match chosenGrouping r.byPrefix r.bySuffix with
+  | some g => pts.map (regroupL o g)
+  | none => pts
+
+/-- the WITH names of the range phase of an unwrapped range aggregation -/
+def uwAls (r : RangeAgg) : List Alias :=
+  [.named "main", .named "_time_series"] ++
+  (match chosenGrouping r.byPrefix r.bySuffix with
+   | some _ => [.named ("pre_by_without_" ++ toString ((labelConds r.sel).length + 1))]
+   | none => []) ++ [.named "unwrap_1"]
+
+def uwId (r : RangeAgg) : Nat :=
+  (labelConds r.sel).length + (match chosenGrouping r.byPrefix r.bySuffix with | some _ => 1 | none => 0)
+
+theorem unwrapFnSel_eq (fn : UnwrapFn) (d : Nat) (cm : Option Comparison) (main : Sel) :
+    cmpOpt cm (unwrapFnSel fn d main) = (uwBody fn d (cmpHaving cm)).with_ [(.named "unwrap_1", main)] := by
+  have : unwrapFnSel fn d main = (uwBody fn d none).with_ [(.named "unwrap_1", main)] := rfl
+  rw [this]
+  unfold uwBody Sel.with_
+  simp only [Sel.setWiths]
+  rw [cmpOpt_eq]
+
+theorem byWithoutSimple_eq (id : Nat) (g : Grouping) (main : Sel) :
+    byWithoutSimple id g main = (bwsBody ("pre_by_without_" ++ toString (id + 1)) g).with_
+      [(.named ("pre_by_without_" ++ toString (id + 1)), main)] := rfl
+
+theorem rangeState_unwrap (c : MCtx) (q : MetricQuery) (fn : UnwrapFn) (label : String)
+    (hk : q.rangeAgg.kind = .unwrap fn label) :
+    rangeState false c q = ⟨cmpOpt q.rangeAgg.cmp (unwrapFnSel fn q.rangeAgg.durNs
+      (planByWithout c.toCtx false (chosenGrouping q.rangeAgg.byPrefix q.rangeAgg.bySuffix)
+        ⟨splSel c q, (labelConds q.rangeAgg.sel).length⟩).sel),
+      uwId q.rangeAgg⟩ := by
+  have hu : q.rangeAgg.isUnwrap = true := by unfold RangeAgg.isUnwrap; rw [hk]
+  unfold rangeState uwId
+  simp only [Bool.false_eq_true, if_false, orderRange, hk, List.foldl_append, List.foldl_cons, List.foldl_nil, applyStep,
+    foldl_cmpStep, hu, Bool.not_true]
+  cases chosenGrouping q.rangeAgg.byPrefix q.rangeAgg.bySuffix <;> simp [planByWithout]
+
+/-- **range phase over unwrapped values.** After `planSpl` (ordered `main`, labels join, `UnwrapPlanner`), the optional
+    `by`/`without`, `UnwrapFunctionPlanner` and the optional comparison, the statement holds the points of the direct
+    reading's range stage over the matching entries taken in timestamp order. -/
+theorem uwPhase_ok (o : Oracles) (c : MCtx) (hn : c.namesOk) (d : LokiDb) (q : MetricQuery) (fn : UnwrapFn) (label : String)
+    (hk : q.rangeAgg.kind = .unwrap fn label) (hfn : fn ≠ .stdvarOT ∧ fn ≠ .stddevOT)
+    (hm : q.rangeAgg.sel.matchers.length ≤ 63) (hms : 1000000 ∣ q.rangeAgg.durNs) (hd : 0 < q.rangeAgg.durNs) :
+    PStage o c d q.rangeAgg.sel (rangeState false c q).sel
+      (cmpStage q.rangeAgg.cmp (unwrapCore fn q.rangeAgg.durNs (uwInput o c.toCtx d q.rangeAgg label))) (uwAls q.rangeAgg) := by
+  rw [rangeState_unwrap c q fn label hk, splSel_unwrap c q fn label hk]
+  simp only
+  obtain ⟨T, rest, hE, hT⟩ := fpWiths_eval o c hn d q.rangeAgg.sel hm
+  -- the samples side
+  have h0 : PStage o c d q.rangeAgg.sel (uwJoinBody c.toCtx label (fpWiths c.toCtx q.rangeAgg.sel ++
+      [(.named "main", mainSorted c.toCtx q.rangeAgg.sel),
+       (.named "_time_series", (timeSeriesSel c.toCtx).setWiths (fpWiths c.toCtx q.rangeAgg.sel))]))
+      ((sortBy (tsLe c.toCtx) (d.samples.filter (entryMatches o c.toCtx d q.rangeAgg.sel))).map
+        (entryPt o c.toCtx d q.rangeAgg.sel label)) [.named "main", .named "_time_series"] := by
+    refine ⟨⟨_, rfl, rfl⟩, ?_, ?_⟩
+    · simp only [uwJoinBody, Sel.withs, als_append]
+      refine List.nodup_append.mpr ⟨(fpWiths_als c.toCtx q.rangeAgg.sel).1, by simp [als], ?_⟩
+      intro x hx y hy
+      simp only [als, List.map_cons, List.map_nil, List.mem_cons, List.not_mem_nil, or_false] at hy
+      rcases hy with rfl | rfl
+      · exact fun e => named_notin_fp _ _ "main" (by decide) (e ▸ hx)
+      · exact fun e => named_notin_fp _ _ "_time_series" (by decide) (e ▸ hx)
+    · rw [evalSelA_eq, evalBodyM_eq_A _ _ _ _ (by rfl)]
+      unfold envOf
+      simp only [uwJoinBody, Sel.withs]
+      rw [evalWithsA_append, hE]
+      simp only [evalWithsA]
+      rw [evalBodyM_eq_A _ _ _ (mainSorted c.toCtx q.rangeAgg.sel) (by rfl),
+        mainSorted_eval o c hn d q.rangeAgg.sel _ T (by simp [List.lookup]) hT,
+        evalBodyM_eq_A _ _ _ ((timeSeriesSel c.toCtx).setWiths (fpWiths c.toCtx q.rangeAgg.sel)) (by rfl),
+        timeSeriesA_eval o c hn d q.rangeAgg.sel _ T (by simp [List.lookup]) hT]
+      exact uwJoin_eval o c d q.rangeAgg.sel _ label _ _ (by simp [List.lookup]) (by simp [List.lookup])
+  unfold uwInput uwAls
+  cases hg : chosenGrouping q.rangeAgg.byPrefix q.rangeAgg.bySuffix with
+  | none =>
+    simp only [planByWithout]
+    rw [unwrapFnSel_eq]
+    have := h0.wrap "unwrap_1" (by decide) (by decide) (uwBody fn q.rangeAgg.durNs (cmpHaving q.rangeAgg.cmp))
+      (cmpHaving_notBitSet _) _ (uw_eval o _ _ fn hfn _ hms hd _ _ h0.rep (by simp [List.lookup]) q.rangeAgg.cmp)
+    simpa using this
+  | some g =>
+    simp only [planByWithout, Bool.false_eq_true, if_false]
+    rw [unwrapFnSel_eq, byWithoutSimple_eq]
+    have h1 := h0.wrap ("pre_by_without_" ++ toString ((labelConds q.rangeAgg.sel).length + 1)) (by str_ne)
+      (by simp only [List.mem_cons, List.not_mem_nil, or_false, Alias.named.injEq, not_or]; constructor <;> str_ne)
+      (bwsBody ("pre_by_without_" ++ toString ((labelConds q.rangeAgg.sel).length + 1)) g) (by rfl) _
+      (bws_eval o _ _ _ g _ _ h0.rep (by simp [List.lookup]))
+    have := h1.wrap "unwrap_1" (by decide)
+      (by simp only [List.mem_append, List.mem_cons, List.not_mem_nil, or_false, Alias.named.injEq, not_or]
+          refine ⟨⟨by decide, by decide⟩, ?_⟩
+          apply Ne.symm; str_ne)
+      (uwBody fn q.rangeAgg.durNs (cmpHaving q.rangeAgg.cmp))
+      (cmpHaving_notBitSet _) _ (uw_eval o _ _ fn hfn _ hms hd _ _ h1.rep (by simp [List.lookup]) q.rangeAgg.cmp)
+    simpa using this
+
+/-! ### every query shape over an unwrapped range aggregation -/
+theorem pbw_inj (a b : Nat) (h : "pre_by_without_" ++ toString a = "pre_by_without_" ++ toString b) : a = b := by
+  have := congrArg String.toList h
+  simp at this
+  have h2 := congrArg (fun l => Nat.ofDigitChars 10 l 0) this
+  simpa [Nat.ofDigitChars_ten_toDigits] using h2
+
+theorem uwAls_fresh (r : RangeAgg) (n : String) (h1 : n ≠ "main") (h2 : n ≠ "_time_series") (h3 : n ≠ "unwrap_1")
+    (h4 : n ≠ "pre_by_without_" ++ toString ((labelConds r.sel).length + 1)) : Alias.named n ∉ uwAls r := by
+  unfold uwAls
+  cases chosenGrouping r.byPrefix r.bySuffix
+  · simp [h1, h2, h3]
+  · simp only [List.mem_append, List.mem_cons, List.not_mem_nil, or_false, Alias.named.injEq, not_or]
+    exact ⟨⟨⟨h1, h2⟩, h4⟩, h3⟩
+
+/-- key and labels of a point agree with the direct reading's view of its labels -/
+def LabelledKL (o : Oracles) (c : Ctx) (d : LokiDb) (q : LogQuery) (key labels : Val) : Prop :=
+  ptLabels o c d q ⟨key, labels, 0, 0⟩ = labels ∧ Atomic key ∧ Atomic labels
+
+theorem labelledKL_ptLabels (o : Oracles) (c : Ctx) (d : LokiDb) (q : LogQuery) (p : Pt)
+    (h : LabelledKL o c d q p.key p.labels) : ptLabels o c d q p = p.labels := h.1
+
+theorem entryPt_labelled (o : Oracles) (c : Ctx) (d : LokiDb) (q : LogQuery) (label : String) (s : Sample) :
+    LabelledKL o c d q (entryPt o c d q label s).key (entryPt o c d q label s).labels := by
+  unfold LabelledKL entryPt ptLabels
+  refine ⟨?_, rfl, ?_⟩
+  · simp only
+    cases hl : labelsOf o c d q s.fp <;> simp [hl]
+  · simp only
+    unfold labelsOf
+    split <;> rfl
+
+theorem regrouped_labelled (o : Oracles) (c : Ctx) (d : LokiDb) (q : LogQuery) (p : Pt) (h : Regrouped p) :
+    LabelledKL o c d q p.key p.labels :=
+  ⟨ptLabels_of_regrouped o c d q ⟨p.key, p.labels, 0, 0⟩ h, h.atomic.1, h.atomic.2⟩
+
+theorem regroupL_regrouped (o : Oracles) (g : Grouping) (p : Pt) : Regrouped (regroupL o g p) := by
+  unfold regroupL regroup
+  cases p.labels with
+  | map m => exact Or.inl ⟨_, _, rfl, rfl⟩
+  | _ => exact Or.inr ⟨rfl, rfl⟩
+
+theorem unwrapCore_kl (fn : UnwrapFn) (d : Nat) (pts : List Pt) :
+    ∀ p ∈ unwrapCore fn d pts, ∃ x ∈ pts, p.key = x.key ∧ p.labels = x.labels := by
+  intro p hp
+  unfold unwrapCore at hp
+  obtain ⟨g, hg, hgp⟩ := List.mem_filterMap.mp hp
+  obtain ⟨⟨a, rest, hgr, hk⟩, hall⟩ := groupsBy_head _ pts g hg
+  cases hv : unwrapVal fn d (g.2.map (fun p => (p.ts, p.value))) with
+  | none => rw [hv] at hgp; cases hgp
+  | some v =>
+    rw [hv] at hgp
+    simp only [Option.map_some, Option.some.injEq] at hgp
+    subst hgp
+    refine ⟨a, (hall a (by rw [hgr]; simp)).1, ?_, ?_⟩
+    · simp only [← hk, uwKey]
+    · simp only [hgr, List.head?_cons, Option.map_some, Option.getD_some]
+
+theorem uwInput_labelled (o : Oracles) (c : Ctx) (d : LokiDb) (r : RangeAgg) (label : String) :
+    ∀ p ∈ uwInput o c d r label, LabelledKL o c d r.sel p.key p.labels := by
+  intro p hp
+  unfold uwInput at hp
+  cases hg : chosenGrouping r.byPrefix r.bySuffix with
+  | none =>
+    rw [hg] at hp
+    obtain ⟨s, _, rfl⟩ := List.mem_map.mp hp
+    exact entryPt_labelled ..
+  | some g =>
+    rw [hg] at hp
+    obtain ⟨x, _, rfl⟩ := List.mem_map.mp hp
+    exact regrouped_labelled o c d r.sel _ (regroupL_regrouped o g x)
+
+theorem regroupPt_eq_regroupL (o : Oracles) (c : Ctx) (d : LokiDb) (q : LogQuery) (g : Grouping) (p : Pt)
+    (h : LabelledKL o c d q p.key p.labels) : regroupPt o c d q g p = regroupL o g p := by
+  unfold regroupPt regroupL
+  rw [labelledKL_ptLabels o c d q p h]
+
+theorem map_ptLabels_labelled (o : Oracles) (c : Ctx) (d : LokiDb) (q : LogQuery) (pts : List Pt)
+    (h : ∀ p ∈ pts, LabelledKL o c d q p.key p.labels) : pts.map (fun p => { p with labels := ptLabels o c d q p }) = pts := by
+  conv => rhs; rw [← List.map_id pts]
+  apply List.map_congr_left
+  intro p hp
+  rw [labelledKL_ptLabels o c d q p (h p hp)]
+  rfl
+
+theorem upperPts_of (o : Oracles) (c : MCtx) (d : LokiDb) (q : MetricQuery) (p0 p1 : List Pt)
+    (h : (match q.agg? with
+        | some a => cmpStage a.cmp (aggStage o c.toCtx d q.rangeAgg.sel a p0)
+        | none => p0) = p1) :
+    upperPts o c d q p0 = match q with
+      | .topk t => cmpStage t.cmp (topkStage t.isTop t.k p1)
+      | _ => p1 := by
+  subst h
+  cases q <;> rfl
+
+/-- **every query shape over a proved unwrap range phase.** No labels join at the end: every stage carries the labels. -/
+theorem planPhases_of_unwrap (o : Oracles) (c : MCtx) (d : LokiDb) (q : MetricQuery)
+    (hu : q.rangeAgg.isUnwrap = true) (hok : aggOk q) (p0 : List Pt)
+    (hr : PStage o c d q.rangeAgg.sel (rangeState false c q).sel p0 (uwAls q.rangeAgg))
+    (hid : (rangeState false c q).id = uwId q.rangeAgg)
+    (hlab : ∀ p ∈ p0, LabelledKL o c.toCtx d q.rangeAgg.sel p.key p.labels)
+    (hcol : hasColumn (rangeState false c q).sel.cols "labels" = true) :
+    (evalSelA o (d.toDbM c) (planPhases false c q)).map normRow = sortBy (rowLe matrixKeys)
+      (((stepStage c.stepNs q.rangeAgg.durNs (upperPts o c d q p0)).map
+        (fun p => { p with labels := ptLabels o c.toCtx d q.rangeAgg.sel p })).map Pt.row) := by
+  unfold planPhases
+  have hml : matrixLabelsW false q = true := by unfold matrixLabelsW; simp [hu]
+  have hfresh : ∀ n : String, n ≠ "main" → n ≠ "_time_series" → n ≠ "unwrap_1" → (∀ k : Nat, n ≠ "pre_by_without_" ++ toString k) →
+      Alias.named n ∉ uwAls q.rangeAgg := fun n h1 h2 h3 h4 => uwAls_fresh _ n h1 h2 h3 (h4 _)
+  unfold joinPhase
+  rw [hml]
+  simp only [if_true]
+  cases hagg : q.agg? with
+  | none =>
+    have hA : aggPhase false c q (rangeState false c q) = (rangeState false c q).sel := by unfold aggPhase; rw [hagg]
+    have hU1 : (match q.agg? with
+        | some a => cmpStage a.cmp (aggStage o c.toCtx d q.rangeAgg.sel a p0)
+        | none => p0) = p0 := by rw [hagg]
+    rw [hA, upperPts_of o c d q p0 p0 hU1]
+    cases q with
+    | topk t =>
+      simp only [topkPhase]
+      have h2 := hr.topk t.isTop t.k t.cmp true hcol (fun p hp => ⟨(hlab p hp).2.1, (hlab p hp).2.2⟩) (fun hw => by cases hw)
+        (hfresh _ (by decide) (by decide) (by decide) (by intro k; str_ne))
+        (hfresh _ (by decide) (by decide) (by decide) (by intro k; str_ne))
+      have hl2 : ∀ p ∈ cmpStage t.cmp (topkStage t.isTop t.k p0),
+          LabelledKL o c.toCtx d (MetricQuery.topk t).rangeAgg.sel p.key p.labels :=
+        cmpStage_labels _ _ _ (fun p hp => hlab p (topkStage_sub _ _ _ p hp))
+      have h3 := h2.stepFix (MetricQuery.topk t).rangeAgg.durNs true (by
+          rw [cols_cmpOpt, topkSel_eq, cols_with, hcol]
+          simp [topOuterBody, topOuterCols, Sel.cols, hasColumn, simpleCol, emptyStr]) (fun hw => by cases hw)
+        (notin_append (hfresh _ (by decide) (by decide) (by decide) (by intro k; str_ne)) (by decide))
+      rw [h3.final (notin_append (notin_append (hfresh _ (by decide) (by decide) (by decide) (by intro k; str_ne)) (by decide))
+        (by unfold stepAls; split <;> simp))]
+      rw [map_ptLabels_labelled]
+      exact stepStage_pred _ _ _ (LabelledKL o c.toCtx d (MetricQuery.topk t).rangeAgg.sel) hl2
+    | range r =>
+      simp only [topkPhase]
+      have h3 := hr.stepFix (MetricQuery.range r).rangeAgg.durNs true hcol (fun hw => by cases hw)
+        (hfresh _ (by decide) (by decide) (by decide) (by intro k; str_ne))
+      rw [h3.final (notin_append (hfresh _ (by decide) (by decide) (by decide) (by intro k; str_ne))
+        (by unfold stepAls; split <;> simp))]
+      rw [map_ptLabels_labelled]
+      exact stepStage_pred _ _ _ (LabelledKL o c.toCtx d (MetricQuery.range r).rangeAgg.sel) hlab
+    | agg a => simp [MetricQuery.agg?] at hagg
+  | some a =>
+    have hok' : (chosenGrouping a.byPrefix a.bySuffix).isSome ∧ a.fn ≠ .stddev ∧ a.fn ≠ .stdvar := by
+      unfold aggOk at hok; rw [hagg] at hok; exact hok
+    obtain ⟨g, hg⟩ := Option.isSome_iff_exists.mp hok'.1
+    have hA : aggPhase false c q (rangeState false c q) =
+        cmpOpt a.cmp (aggSel a.fn true (byWithoutSimple (uwId q.rangeAgg) g (rangeState false c q).sel)) := by
+      unfold aggPhase
+      rw [hagg]
+      simp only [hml, hu, Bool.not_true, hg, planByWithout, Bool.false_eq_true, if_false, hid]
+    have hU1 : (match q.agg? with
+        | some a => cmpStage a.cmp (aggStage o c.toCtx d q.rangeAgg.sel a p0)
+        | none => p0) = cmpStage a.cmp (aggCore a.fn (p0.map (regroupL o g))) := by
+      rw [hagg]
+      simp only [aggStage_eq, hg, Option.getD_some]
+      congr 2
+      apply List.map_congr_left
+      intro p hp
+      exact regroupPt_eq_regroupL o c.toCtx d q.rangeAgg.sel g p (hlab p hp)
+    rw [hA, upperPts_of o c d q p0 _ hU1, byWithoutSimple_eq]
+    have hbw : Alias.named ("pre_by_without_" ++ toString (uwId q.rangeAgg + 1)) ∉ uwAls q.rangeAgg := by
+      unfold uwAls uwId
+      cases chosenGrouping q.rangeAgg.byPrefix q.rangeAgg.bySuffix with
+      | none =>
+        simp only [List.append_nil, List.mem_append, List.mem_cons, List.not_mem_nil, or_false, Alias.named.injEq, not_or]
+        refine ⟨⟨?_, ?_⟩, ?_⟩ <;> str_ne
+      | some _ =>
+        simp only [List.mem_append, List.mem_cons, List.not_mem_nil, or_false, Alias.named.injEq, not_or]
+        refine ⟨⟨⟨?_, ?_⟩, ?_⟩, ?_⟩
+        · str_ne
+        · str_ne
+        · intro e
+          have := pbw_inj _ _ e
+          omega
+        · str_ne
+    have h2 := hr.wrap ("pre_by_without_" ++ toString (uwId q.rangeAgg + 1)) (by str_ne) hbw
+      (bwsBody ("pre_by_without_" ++ toString (uwId q.rangeAgg + 1)) g) (by rfl) _
+      (bws_eval o _ _ _ g _ _ hr.rep (by simp [List.lookup]))
+    have h3 := h2.agg a.fn hok'.2 a.cmp (notin_append (hfresh _ (by decide) (by decide) (by decide) (by intro k; str_ne))
+      (by simp only [List.mem_singleton, Alias.named.injEq]; apply Ne.symm; str_ne))
+    have hreg : ∀ p ∈ cmpStage a.cmp (aggCore a.fn (p0.map (regroupL o g))), Regrouped p := by
+      apply cmpStage_labels
+      apply aggCore_regrouped
+      intro p hp
+      obtain ⟨x, _, rfl⟩ := List.mem_map.mp hp
+      exact regroupL_regrouped o g x
+    have hfreshL3 : ∀ n : String, n ≠ "main" → n ≠ "_time_series" → n ≠ "unwrap_1" → n ≠ "lra_main" →
+        (∀ k : Nat, n ≠ "pre_by_without_" ++ toString k) →
+        Alias.named n ∉ uwAls q.rangeAgg ++ [Alias.named ("pre_by_without_" ++ toString (uwId q.rangeAgg + 1))] ++
+          [Alias.named "lra_main"] := by
+      intro n h1 h2 h3 h4 h5
+      refine notin_append (notin_append (hfresh n h1 h2 h3 h5) ?_) ?_
+      · simp only [List.mem_singleton, Alias.named.injEq]; exact h5 _
+      · simp only [List.mem_singleton, Alias.named.injEq]; exact h4
+    cases q with
+    | topk t =>
+      simp only [topkPhase]
+      have h4 := h3.topk t.isTop t.k t.cmp true (hasLabels_agg _ _ _) (fun p hp => (hreg p hp).atomic) (fun hw => by cases hw)
+        (hfreshL3 _ (by decide) (by decide) (by decide) (by decide) (by intro k; str_ne))
+        (hfreshL3 _ (by decide) (by decide) (by decide) (by decide) (by intro k; str_ne))
+      have hreg2 : ∀ p ∈ cmpStage t.cmp (topkStage t.isTop t.k
+          (cmpStage a.cmp (aggCore a.fn (p0.map (regroupL o g))))), Regrouped p :=
+        cmpStage_labels _ _ _ (fun p hp => hreg p (topkStage_sub _ _ _ p hp))
+      have h5 := h4.stepFix (MetricQuery.topk t).rangeAgg.durNs true (by
+          rw [cols_cmpOpt, topkSel_eq, cols_with, hasLabels_agg]
+          simp [topOuterBody, topOuterCols, Sel.cols, hasColumn, simpleCol, emptyStr]) (fun hw => by cases hw)
+        (notin_append (hfreshL3 _ (by decide) (by decide) (by decide) (by decide) (by intro k; str_ne)) (by decide))
+      rw [h5.final (notin_append (notin_append (hfreshL3 _ (by decide) (by decide) (by decide) (by decide) (by intro k; str_ne))
+          (by decide)) (by unfold stepAls; split <;> simp))]
+      rw [map_ptLabels_regrouped]
+      exact stepStage_pred _ _ _ (fun k l => Regrouped ⟨k, l, 0, 0⟩) hreg2
+    | agg a' =>
+      simp only [topkPhase]
+      have h5 := h3.stepFix (MetricQuery.agg a').rangeAgg.durNs true (hasLabels_agg _ _ _) (fun hw => by cases hw)
+        (hfreshL3 _ (by decide) (by decide) (by decide) (by decide) (by intro k; str_ne))
+      rw [h5.final (notin_append (hfreshL3 _ (by decide) (by decide) (by decide) (by decide) (by intro k; str_ne))
+          (by unfold stepAls; split <;> simp))]
+      rw [map_ptLabels_regrouped]
+      exact stepStage_pred _ _ _ (fun k l => Regrouped ⟨k, l, 0, 0⟩) hreg
+    | range r => simp [MetricQuery.agg?] at hagg
+
+/-! ### the direct reading over the entries in timestamp order -/
+theorem rangePoints_unwrap (o : Oracles) (c : Ctx) (d : LokiDb) (r : RangeAgg) (fn : UnwrapFn) (label : String) (lo hi : Int)
+    (hk : r.kind = .unwrap fn label) :
+    rangePoints o c d r lo hi = unwrapCore fn r.durNs
+      (match chosenGrouping r.byPrefix r.bySuffix with
+       | some g => ((d.samples.filter (entryMatchesW o c d r.sel lo hi)).map (entryPt o c d r.sel label)).map (regroupL o g)
+       | none => (d.samples.filter (entryMatchesW o c d r.sel lo hi)).map (entryPt o c d r.sel label)) := by
+  unfold rangePoints unwrapCore groupsBy uwKey
+  simp only [hk]
+  cases chosenGrouping r.byPrefix r.bySuffix with
+  | none =>
+    simp only [entryPt, List.map_map, Function.comp_def, List.filterMap_map, List.filter_map, List.head?_map, Option.map_map]
+  | some g =>
+    simp only [entryPt, regroupL, List.map_map, Function.comp_def, List.filterMap_map, List.filter_map, List.head?_map,
+      Option.map_map]
+
+theorem rangePoints_sorted (o : Oracles) (c : Ctx) (d : LokiDb) (r : RangeAgg) (fn : UnwrapFn) (label : String)
+    (hk : r.kind = .unwrap fn label) :
+    rangePoints o c (sortedDb c d) r c.fromNs c.toNs = unwrapCore fn r.durNs (uwInput o c d r label) := by
+  rw [rangePoints_unwrap o c (sortedDb c d) r fn label _ _ hk]
+  have hm : entryMatchesW o c (sortedDb c d) r.sel c.fromNs c.toNs = entryMatches o c d r.sel := by
+    funext s
+    unfold entryMatchesW entryMatches
+    rw [fpSelected_congr o c (sortedDb c d) d r.sel rfl rfl]
+  have hl : entryPt o c (sortedDb c d) r.sel label = entryPt o c d r.sel label := by
+    funext s
+    unfold entryPt
+    rw [labelsOf_congr o c (sortedDb c d) d r.sel rfl rfl]
+  have hs : (sortedDb c d).samples.filter (entryMatches o c d r.sel) =
+      sortBy (tsLe c) (d.samples.filter (entryMatches o c d r.sel)) :=
+    filter_sortBy (tsLe c) (tsLe_total c) (tsLe_trans c) _ _
+  rw [hm, hl, hs]
+  unfold uwInput
+  cases chosenGrouping r.byPrefix r.bySuffix <;> rfl
+
+/-- **plan_metric_correct for unwrapped range aggregations** (rate, sum/avg/min/max/first/last_over_time over
+    `| unwrap label`, with or without grouping clause; alone, under a grouped vector aggregation, under topk/bottomk,
+    comparisons, any step): the generated statement returns the matrix of the direct reading *over the entries taken in
+    timestamp order* — the plan orders `main` by timestamp before it joins the labels and groups. -/
+theorem planMetric_unwrap (o : Oracles) (c : MCtx) (hn : c.namesOk) (d : LokiDb) (q : MetricQuery) (fn : UnwrapFn)
+    (label : String) (hk : q.rangeAgg.kind = .unwrap fn label) (hfn : fn ≠ .stdvarOT ∧ fn ≠ .stddevOT) (hok : aggOk q)
+    (hm : q.rangeAgg.sel.matchers.length ≤ 63) (hms : 1000000 ∣ q.rangeAgg.durNs) (hd : 0 < q.rangeAgg.durNs) :
+    (evalSelA o (d.toDbM c) (planMetric c q)).map normRow = evalMetric o c (sortedDb c.toCtx d) q := by
+  have hu : q.rangeAgg.isUnwrap = true := by unfold RangeAgg.isUnwrap; rw [hk]
+  have hs : takesShortcut q = false := by simp only [takesShortcut, hk]
+  have hrs := rangeState_unwrap c q fn label hk
+  rw [planMetric_phases, hs]
+  have hp := uwPhase_ok o c hn d q fn label hk hfn hm hms hd
+  rw [planPhases_of_unwrap o c d q hu hok _ hp (by rw [hrs])
+    (by
+      apply cmpStage_labels
+      intro p hp'
+      obtain ⟨x, hx, h1, h2⟩ := unwrapCore_kl _ _ _ p hp'
+      rw [h1, h2]
+      exact uwInput_labelled o c.toCtx d q.rangeAgg label x hx)
+    (by
+      rw [hrs]
+      simp only
+      rw [cols_cmpOpt]
+      show hasColumn ((uwBody fn q.rangeAgg.durNs none).with_ _).cols "labels" = true
+      rw [cols_with]
+      simp [uwBody, uwCols, Sel.cols, hasColumn, bucketCol, emptyStr])]
+  rw [evalMetric_matrixPts, matrixPts_eq]
+  unfold effWindow
+  simp only [hs, Bool.false_eq_true, if_false]
+  rw [rangePoints_sorted o c.toCtx d q.rangeAgg fn label hk]
+  have hl := labelsOf_congr o c.toCtx (sortedDb c.toCtx d) d q.rangeAgg.sel rfl rfl
+  have hpl : ptLabels o c.toCtx (sortedDb c.toCtx d) q.rangeAgg.sel = ptLabels o c.toCtx d q.rangeAgg.sel := by
+    funext p; unfold ptLabels; rw [hl]
+  have ha : ∀ a pts, aggStage o c.toCtx (sortedDb c.toCtx d) q.rangeAgg.sel a pts = aggStage o c.toCtx d q.rangeAgg.sel a pts := by
+    intro a pts; unfold aggStage; rw [hpl]
+  rw [hpl]
+  unfold upperPts
+  simp only [ha]
+
+theorem supportedU_spec (q : MetricQuery) (h : supportedU q = true) :
+    (∃ fn label, q.rangeAgg.kind = .unwrap fn label ∧ fn ≠ .stdvarOT ∧ fn ≠ .stddevOT) ∧ aggOk q ∧
+      1000000 ∣ q.rangeAgg.durNs ∧ 0 < q.rangeAgg.durNs ∧ q.rangeAgg.sel.matchers.length ≤ 63 := by
+  unfold supportedU at h
+  simp only [Bool.and_eq_true, decide_eq_true_eq] at h
+  obtain ⟨⟨⟨⟨h1, h2⟩, h3⟩, h4⟩, h5⟩ := h
+  refine ⟨?_, ?_, Nat.dvd_of_mod_eq_zero h3, h4, h5⟩
+  · cases hk : q.rangeAgg.kind with
+    | lra fn => rw [hk] at h1; cases h1
+    | unwrap fn l =>
+      rw [hk] at h1
+      simp only [Bool.and_eq_true, bne_iff_ne, ne_eq] at h1
+      exact ⟨fn, l, rfl, h1.1, h1.2⟩
+  · unfold aggOk
+    cases ha : q.agg? with
+    | none => trivial
+    | some a =>
+      rw [ha] at h2
+      simp only [Bool.and_eq_true, bne_iff_ne, ne_eq] at h2
+      exact ⟨h2.1.1, h2.1.2, h2.2⟩
+
+theorem planMetric_unwrap_supported (o : Oracles) (c : MCtx) (hn : c.namesOk) (d : LokiDb) (q : MetricQuery)
+    (hsup : supportedU q = true) :
+    (evalSelA o (d.toDbM c) (planMetric c q)).map normRow = evalMetric o c (sortedDb c.toCtx d) q := by
+  obtain ⟨⟨fn, label, hk, hfn1, hfn2⟩, hok, hms, hd, hm⟩ := supportedU_spec q hsup
+  exact planMetric_unwrap o c hn d q fn label hk ⟨hfn1, hfn2⟩ hok hm hms hd
+
+theorem sortedDb_of_sorted (c : Ctx) (d : LokiDb) (h : sortBy (tsLe c) d.samples = d.samples) : sortedDb c d = d := by
+  cases d
+  simp only [sortedDb] at h ⊢
+  rw [h]
+
 end Qryn.LogQL
